@@ -268,6 +268,14 @@ def cases(spec, ctx):
             yield {"kind": kind, "flavour": FLAVOURS[(k + k // 8) % 2], "update_translations": bool((k // 2 + k // 16) % 2) or kind == "indwriter", "layout": layout,
                    "glen": glen, "gseed": rng.randrange(1 << 30), "nfrac": 0.04 if rng.random() < 0.08 else 0.0,
                    "stale": rng.random() < 0.15, "spec": cs, "force_strand": rng.random() < 0.5, "iw": _iw_opts(rng)}
+    # ---- scale (own stream): one gene of 17..60 exons on 1.5..3 kb, both flavours, export and independent-writer legs -------------
+    srng = random.Random(f"C12-scale:{ctx.seed}:{i}")
+    for k in range(max(1, sc["NE"] // (60 * n))):
+        glen = srng.choice([1500, 3000])
+        g = _gene(srng, srng.randint(0, 20), glen - srng.randint(0, 20), 0, "LT_700", coding=srng.random() < 0.8, nex=srng.randint(17, 60), idmode="full")
+        cs = {"genes": [g], "fcolls": [], "name": "coll", "sequence_name": "chr1", "start": None, "end": None, "qualifiers": {}}
+        yield {"kind": "export" if k % 3 else "indwriter", "flavour": FLAVOURS[k % 2], "update_translations": True, "layout": "disjoint", "glen": glen,
+               "gseed": srng.randrange(1 << 30), "nfrac": 0.0, "stale": False, "spec": cs, "force_strand": bool(k % 2), "iw": _iw_opts(srng)}
 
 
 def _iw_opts(rng):
